@@ -776,8 +776,13 @@ def r23model(ctx: Ctx) -> RuleReport:
             continue
         first = e.elts[0]
         key = f'{co.fq}: inverted roles sort last (first key component is is_role_inverted)'
+        rewritten = [x for x in ast.walk(e) if isinstance(x, ast.Call) and isinstance(x.func, ast.Attribute) and x.func.attr in ('canonicalize_role', 'canonicalize', 'deinvert', 'invert_role')]
         if norm(first) == f'self.is_role_inverted({cp})':
             rep.ok(key, co.loc(r))
+        elif rewritten:
+            rep.violation(key, co.loc(r), f'the key is computed from `{norm(rewritten[0])[:50]}`, not from the role the branch has: canonicalize_role applies the normalisation table and removes '
+                          f'pairs of -of, so under the AMR model ":mod-of" is keyed as ":domain" (not inverted) and ":ARG0-of-of" as ":ARG0" - an inverted role is no longer sorted last, '
+                          f'and two different roles can get the same key')
         elif inverted is not None:
             f = bn.Abstractor(canon=_canon(cp)).formula(first)
             if set(bn.atoms_of(f)) <= {HAS[1], ENDS[1]}:
@@ -1278,6 +1283,34 @@ def r93(ctx: Ctx) -> RuleReport:
         return rep
     _, ip, sp, tp_ = fi.positional[:4]
     cfg = CFG(fi.node)
+    # what dereify raises besides ModelError must be about the SHAPE of the arguments, which the agenda guarantees (an instance triple, three triples of one node):
+    # _dereify_agenda catches ModelError only, so any other refusal of a node the agenda proposes escapes from dereify_edges
+    from ..resolve import facts_ex as _fx93, local_callees as _lc93
+    ag = ctx.repo.maybe_func('penman.transform', '_dereify_agenda')
+    caught = set()
+    if ag is not None:
+        for h_ in [x for x in walk_local(ag.node) if isinstance(x, ast.ExceptHandler) and x.type is not None]:
+            caught |= {norm(t_) for t_ in (h_.type.elts if isinstance(h_.type, ast.Tuple) else [h_.type])}
+    for f_ in [f for f in _lc93(ctx, fi, depth=1) if f.module.name == M]:
+        for r_ in [x for x in walk_local(f_.node) if isinstance(x, ast.Raise) and isinstance(x.exc, ast.Call)]:
+            cls_ = norm(r_.exc.func).split('.')[-1]
+            if cls_ in caught or cls_ == 'ModelError' or not caught:
+                continue
+            # the test that guards this raise (the innermost `if` around it), with local names written out
+            pm_ = ctx.repo.parent_map(f_.node)
+            g_ = r_
+            while id(g_) in pm_ and not (isinstance(pm_[id(g_)], ast.If) and g_ in pm_[id(g_)].body):
+                g_ = pm_[id(g_)]
+            test_ = pm_[id(g_)].test if id(g_) in pm_ else None
+            fx_ = [norm(expand(ctx, f_, test_, test_)).replace(' ', '')] if test_ is not None else []
+            shape = any('CONCEPT_ROLE' in f for f in fx_) or any('[0]==' in f or '[0]!=' in f for f in fx_)
+            k_ = f'{f_.fq}: `{norm(r_)[:50]}` refuses only arguments the agenda never proposes'
+            if shape:
+                rep.ok(k_, f_.loc(r_), 'about the shape of the three triples')
+            else:
+                rep.violation(k_, f_.loc(r_), f'{cls_} is raised under {sorted(fx_)[:3]}, a condition on the ROLES of the two relations, which the agenda does not exclude; '
+                              f'_dereify_agenda catches only {sorted(caught)}, so for such a node - e.g. one whose two relations have the same role - dereify_edges raises instead of leaving the '
+                              f'node alone')
     loops = [n for n in walk_local(fi.node) if isinstance(n, ast.For) and isinstance(n.target, ast.Tuple) and len(n.target.elts) == 3
              and ('dereifications' in norm(n.iter) or 'dereifications' in norm(expand(ctx, fi, n.iter, n)))]
     if len(loops) != 1:
